@@ -14,7 +14,7 @@ import (
 func init() {
 	register(&Prop{
 		ID:          "C03",
-		Explanation: "Decides the structure that binds a callback to the login that started it: in OAuthCallback every path that saves a session passed decodeState ok, then LoadCSRFCookie under the name derived from that state's nonce, then CheckOAuthState(that nonce)==true on that very cookie object; LoadCSRFCookie yields a CSRF only from a cookie of the requested name that decodeCSRFCookie accepted, which needs encryption.Validate ok and decrypts/unmarshals Validate's value; the hash/check/set methods each read the nonce field they are named after; the start flow sends encodeState(csrf.HashOAuthState()) and HashOIDCNonce() of the same object whose SetCookie succeeded before the redirect, and NewCSRF draws state and nonce from two separate encryption.Nonce calls; both cookie-name derivations cut the hashed state at the same constant and encodeState/decodeState agree on the field order. Added during the build: csrf.ClearCookie deletes exactly its own cookie, so completing one login leaves other outstanding logins intact (R6). The Validate -> checkSignature -> checkHmac -> hmac.Equal chain the CSRF cookie rests on is checked under R2; the session-cookie sweeps that run when a login completes spare other logins' CSRF cookies (R7). Round 4: every Redeem implementation sends the verifier of this login's CSRF cookie (R8, shared with C05.R9); LoginURLParams returns a map made for this request, never the provider's shared default map (R9). Round 6: ExtractStateSubstring returns its cut whenever the state is long enough to cut (under R5). Round 7: request handling keeps no state of its own between requests — no store, map update, in-place builtin, atomic/sync.Map write or pointer-receiver library call (singleflight, caches) reached from ServeHTTP targets a package-level variable, an object built at start-up, or a constructor variable captured by the handler it returned, declared in the packages implementing this property (RS; a class-wide who-may-write rule with zero instances today: a correct memoisation would be reported until reviewed). decodeState divides nonce:redirect at the first colon only (R10).",
+		Explanation: "Decides the structure that binds a callback to the login that started it: in OAuthCallback every path that saves a session passed decodeState ok, then LoadCSRFCookie under the name derived from that state's nonce, then CheckOAuthState(that nonce)==true on that very cookie object; LoadCSRFCookie yields a CSRF only from a cookie of the requested name that decodeCSRFCookie accepted, which needs encryption.Validate ok and decrypts/unmarshals Validate's value; the hash/check/set methods each read the nonce field they are named after; the start flow sends encodeState(csrf.HashOAuthState()) and HashOIDCNonce() of the same object whose SetCookie succeeded before the redirect, and NewCSRF draws state and nonce from two separate encryption.Nonce calls; both cookie-name derivations cut the hashed state at the same constant and encodeState/decodeState agree on the field order. Added during the build: csrf.ClearCookie deletes exactly its own cookie, so completing one login leaves other outstanding logins intact (R6). The Validate -> checkSignature -> checkHmac -> hmac.Equal chain the CSRF cookie rests on is checked under R2; the session-cookie sweeps that run when a login completes spare other logins' CSRF cookies (R7). Round 4: every Redeem implementation sends the verifier of this login's CSRF cookie (R8, shared with C05.R9); LoginURLParams returns a map made for this request, never the provider's shared default map (R9). Round 6: ExtractStateSubstring returns its cut whenever the state is long enough to cut (under R5). Round 7: request handling keeps no state of its own between requests — no store, map update, in-place builtin, atomic/sync.Map write or pointer-receiver library call (singleflight, caches) reached from ServeHTTP targets a package-level variable, an object built at start-up, or a constructor variable captured by the handler it returned, declared in the packages implementing this property (RS; a class-wide who-may-write rule with zero instances today: a correct memoisation would be reported until reviewed). decodeState divides nonce:redirect at the first colon only (R10). Round 8: makeLoginURL sends the state exactly as handed in (R11, shared with C06.R11).",
 		NotDecided:  "the 'succeeds' direction of the biconditional and the ordering of concurrent logins (behaviour over histories); entropy of crypto/rand (trusted).",
 		Run:         runC03,
 	})
